@@ -66,6 +66,22 @@ TABLE = {
         note="bounds as C07; release styles discard/await/destructor; liveness on the specification, on the code: no replayed schedule "
              "ends with a blocked thread",
         design_ref="6/C08, 3.3"),
+    "C10": dict(
+        claimed=True,
+        text="limited_queue is specified in TLA+ (spec/LimitedQueue/LimitedQueue.tla) at the grain of its critical sections: push chooses "
+             "between hand-over, enqueue and block; pop admits the oldest blocked push and completes it after unlocking; unblock_push, "
+             "unblock_pop and destruction are modelled too. C10 is stated as 17 state invariants and 3 action properties (bound, "
+             "push-ready-iff-room, no loss or duplication, FIFO across blocked pushes, one admission per pop, unblock_push withdrawing "
+             "exactly the oldest push, inherited pop-side properties). TLC checks them exhaustively for limits 1..4 over all "
+             "single-client histories within the bounds and over all interleavings of 2 producer and 2 consumer threads. Every edge of "
+             "the single-client graphs is replayed on the real cocls::limited_queue (int and an instance-counting item, futures polled "
+             "and awaited by coroutines, instrumented containers and lock checking that all state access is under the mutex and nothing "
+             "is resumed under it), comparing the three internal queues, every push/pop future, return values and size() after each call. "
+             "The model of the pre-fix code is rejected by the same properties.",
+        note="bounds: limit+3 pushes, limit+2 pops, 2+2 unblocks (thorough limit+4, limit+3, 3+2), limits 1..4; thread interleavings decided on "
+             "the spec only (2P+2C, critical-section grain); TCB: TLC, projection code of limited_queue_replay.cpp, the lock-discipline "
+             "instrumentation binding the code to that grain",
+        design_ref="6/C10, 3.6, 9.3"),
     "C11": dict(
         claimed=True,
         text="TLC checks spec/ThreadPool/ThreadPool.tla at lock grain (one action per critical section of the pool mutex, per "
